@@ -957,6 +957,12 @@ def check_run(spec):
             return [], stats          # documented behaviour: tolerance not reachable [NUM]
         steps = spec.get("_mcsteps", [])
         if (spec["method"] == "dop853" and "step size becomes too small" in str(e)
+                and steps and steps[-1][2] is None and steps[-1][0] == steps[-1][1]
+                and calls and calls[-1]["recs"] and calls[-1]["recs"][-1][0] == steps[-1][1]):
+            return [("find:" + STAG_SIG, msg + " (the search repeated the guess t_prev + norm_t_tol = %r; "
+                     "dop853.mcstep cannot be asked for its current time)" % steps[-1][1],
+                     {"error": msg, "search": calls[-1], "mcsteps": [list(x) for x in steps]})], stats
+        if (spec["method"] == "dop853" and "step size becomes too small" in str(e)
                 and len(steps) >= 2 and steps[-1][2] is None and steps[-2][2] is not None
                 and steps[-2][2] < steps[-2][1] and steps[-1][1] == steps[-2][1]
                 and steps[-2][1] - steps[-2][2] <= 4 * np.spacing(abs(steps[-2][1]))):
@@ -1117,6 +1123,7 @@ def check_mcstep(method, t0, rng):
     integ = cls(rhs, {})
     psi = np.array([[0.6], [0.8j]], dtype=complex)
     bad = []
+    t_set = [t0]
     try:
         integ.set_state(t0, _data.Dense(psi.copy()))
         t_prev = t0
@@ -1127,12 +1134,17 @@ def check_mcstep(method, t0, rng):
                 return [("forward-step-returns-time-outside-range",
                          "%s: set_state(t0=%r) then mcstep(%r) from t=%r returned t=%r"
                          % (method, t0, t_req, t_prev, t_ret),
-                         {"method": method, "t0": t0, "t_req": t_req, "t_ret": float(t_ret)})]
+                         {"method": method, "t0": t0, "t_req": t_req, "t_ret": float(t_ret),
+                          "t_set": t_set[0], "first_after_set": t_prev == t_set[0]})]
             refst = expm(G * (t_ret - t0)) @ psi
             err = float(np.linalg.norm(st.to_array() - refst))
             if err > 1e-4:
                 return [("forward-step-wrong-state", "%s: state after mcstep to %r is off by %.3g"
                          % (method, t_ret, err), {"method": method, "t0": t0, "err": err})]
+            if t_ret - t_prev < 1e-9:
+                # start-up step of a multistep method: nothing to search in
+                t_prev = t_ret
+                continue
             # requests inside the last step, as the secant search makes them:
             # backward, then forward again but still inside the step
             fr = [rng.choice([0.25, 0.5, 0.75]), 0.125, rng.choice([0.875, 0.9375]), 0.625]
@@ -1146,12 +1158,25 @@ def check_mcstep(method, t0, rng):
                     return [("step-inside-last-step-wrong", "%s: mcstep to %r inside the last step "
                              "(%r, %r] returned t=%r, state error %.3g" % (method, tb, t_prev, t_ret, t_b, errb),
                              {"method": method, "t0": t0, "tb": tb, "t_b": float(t_b), "err": errb})]
+            # asking again for the time the integrator stands at must be a no-op
+            # (the search does it when its bracket stops shrinking)
+            try:
+                t_b2, st_b2 = integ.mcstep(tb, copy=True)
+                same = (t_b2 == tb and float(np.linalg.norm(st_b2.to_array() - st_b.to_array())) < 1e-9)
+                why = "returned t=%r" % (t_b2,)
+            except Exception as e:      # noqa
+                same = False
+                why = "raised %s: %s" % (type(e).__name__, str(e)[:80])
+            if not same and not bad:
+                bad.append(("request-at-current-time-fails", "%s: mcstep(%r) while standing at %r %s"
+                            % (method, tb, tb, why), {"method": method, "t0": t0, "tb": tb}))
             # as after a collapse: restart the integrator at the last time asked
             integ.set_state(tb, _data.Dense(expm(G * (tb - t0)) @ psi))
+            t_set[0] = tb
             t_prev = tb
     except Exception as e:      # noqa
         return [("mcstep-raised:" + type(e).__name__, "%s: %s: %s" % (method, type(e).__name__, str(e)[:120]),
-                 {"method": method, "t0": t0})]
+                 {"method": method, "t0": t0, "t_set": t_set[0], "first_after_set": t_prev == t_set[0]})]
     return bad
 
 
@@ -1331,12 +1356,12 @@ def witness_real_norm_steps():
     return None
 
 
-LSODA_SIG = "first-mcstep-after-set_state-at-abs-t-above-2.25-fails"
+LSODA_SIG = "first-mcstep-after-set_state-at-abs-t-above-2-fails"
 
 
 def lsoda_signature(detail):
     """stable signature of the lsoda defect: the failing request is the first
-    forward mcstep after a set_state at |t| > 2.25 (1e-15 < 2*uround*|t|)."""
+    forward mcstep after a set_state at |t| > 2 (fl(t + 1e-15) - t < 2*uround*|t|)."""
     return LSODA_SIG
 
 
@@ -1473,7 +1498,8 @@ def run(ctx):
             dist["method"][m] = dist["method"].get(m, 0) + 1
             for sig, message, det in bad:
                 site = "integrator.mcstep:" + m
-                if m == "lsoda" and abs(t0) > 2.25:
+                if (m == "lsoda" and abs(det.get("t_set", t0)) > 2.0
+                        and det.get("first_after_set", True)):
                     site = "scipy_integrator.IntegratorScipylsoda._one_step"
                     sig = LSODA_SIG
                 ctx.violation(site, sig, message, {"kind": "mcstep", "method": m, "t0": t0})
@@ -1489,7 +1515,11 @@ def run(ctx):
         import warnings
         with warnings.catch_warnings():
             warnings.simplefilter("ignore")
-            bad, st = check_run(spec)
+            try:
+                bad, st = with_timeout(20, check_run, spec)
+            except _Timeout:
+                bad, st = [("mcsolve-raised:Timeout", "mcsolve did not finish %d trajectories within 20 s "
+                            "(method %s)" % (spec["ntraj"], spec["method"]), {})], {"traj": 0, "jumps": 0}
         ntraj += st["traj"]
         njump += st["jumps"]
         ctx.count_case(("system", json.dumps(spec_to_json(spec), sort_keys=True)),
@@ -1520,6 +1550,25 @@ def run(ctx):
                                  " (generator translator not run)"))
 
 
+class _Timeout(BaseException):
+    pass
+
+
+def with_timeout(seconds, fn, *args):
+    """run fn(*args); raise _Timeout after `seconds` (SIGALRM, main thread)."""
+    import signal
+
+    def handler(signum, frame):
+        raise _Timeout()
+    old = signal.signal(signal.SIGALRM, handler)
+    signal.alarm(int(seconds))
+    try:
+        return fn(*args)
+    finally:
+        signal.alarm(0)
+        signal.signal(signal.SIGALRM, old)
+
+
 def classify(spec, sig):
     """site and stable signature of a trajectory-oracle finding."""
     site = "mcsolve:trajectory-oracle"
@@ -1529,7 +1578,7 @@ def classify(spec, sig):
         return "scipy_integrator.IntegratorScipyDop853.mcstep", sig[7:]
     if spec["method"] == "lsoda" and sig.startswith("mcsolve-raised"):
         # attribute to the lsoda restart defect only if the reference
-        # prescribes a collapse later than t = 2.25 in some trajectory
+        # prescribes a collapse later than t = 2 in some trajectory
         if lsoda_late_collapse(spec):
             return "scipy_integrator.IntegratorScipylsoda._one_step", LSODA_SIG
     return site, sig
@@ -1547,7 +1596,7 @@ def lsoda_late_collapse(spec):
         floor = ref.prob(ref.flow(spec["tlist"][0], y0, spec["tlist"][-1])(spec["tlist"][-1]))
     for sd in seeds:
         cols = simulate_ref(ref, spec["psi0"], spec["tlist"], sd, floor, False)
-        if any(abs(t) > 2.25 for t, _ in cols):
+        if any(abs(t) > 2.0 for t, _ in cols):
             return True
     return False
 
